@@ -805,6 +805,23 @@ pub fn journal(quick: bool) -> Vec<Scenario> {
             .journal()
             .budgets(1, 0, 0, 1),
         );
+        // the generated grid (default pre-sending only) with the journal on: every distinct
+        // journal these histories write is cut at every record and restored
+        let depth = std::env::var("HQMC_JGRID_DEPTH").ok().and_then(|s| s.parse().ok()).unwrap_or(11usize);
+        for mut sc in grid(false) {
+            // (a 2-node task can never run on these clusters; journal-mn covers multi-node restarts)
+            if !sc.name.contains("-pd-")
+                || sc.name.contains("-mn2")
+                || !(sc.name.starts_with("grid-1w-") || sc.name.starts_with("grid-1w+s-"))
+            {
+                continue;
+            }
+            sc.name = format!("journal-{}", sc.name);
+            sc.journal = true;
+            sc.depth_bound = depth;
+            sc.max_states = 150_000;
+            v.push(sc);
+        }
     }
     v
 }
